@@ -99,7 +99,12 @@ Paths(v, depth) ==     \* set of [p |-> path source suffix, v |-> value reached]
           [] OTHER -> {})
 
 \* ---- the families ----
-Scalars == {GBool(TRUE), GBool(FALSE), GStr(""), GStr("a$e$ b"), GStr("<i>&amp;</i>"), GNil, GFloat(32, 5, 1), GFloat(64, -1, 2),
+\* "strings print their exact bytes": also bytes that are no UTF-8 ($x$ a Latin-1 byte, $c$ a character cut off after two
+\* of three bytes, $k$ a lone continuation byte)
+OddStrs == {GStr("a$x$b"), GStr("$c$"), GStr("$k$z$x$"), GStr("$e$$c$")}
+OddColls == {GSlice(<<GStr("$x$"), GStr("ok")>>), GMap(<<KV("k", GStr("a$c$"))>>), GStruct(<<Fld("Name", TRUE, GStr("$k$"))>>), GPtr(GStr("$x$y")),
+             GTyped(<<GStr("p$x$"), GStr("q")>>)}
+Scalars == OddStrs \cup {GBool(TRUE), GBool(FALSE), GStr(""), GStr("a$e$ b"), GStr("<i>&amp;</i>"), GNil, GFloat(32, 5, 1), GFloat(64, -1, 2),
             GFloat(64, 3, 0), GFloat(32, 0, 0)}
            \cup {GInt(w, x) : w \in Widths, x \in {"min", "max", "zero", "five"}}
 S0 == {GBool(TRUE), GStr("a$e$ b"), GInt("int8", "min"), GInt("uint32", "max"), GInt("int64", "max"), GFloat(32, 5, 1), GNil, GInt("int", "five")}
@@ -139,7 +144,7 @@ NamedVals == UNION {{GNamed(u), GPtr(GNamed(u)), GSlice(<<GNamed(u)>>), GMap(<<K
 NilColls == NamedVals \cup {GSameName, GPtr(GSameName), GNilSlice, GNilMap, GPtr(GNilSlice), GSlice(<<GNilSlice, GNilMap>>), GMap(<<KV("k", GNilSlice), KV("m", GNilMap)>>),
              GStruct(<<Fld("Tags", TRUE, GNilSlice), Fld("Inner", TRUE, GNilMap), Fld("Name", TRUE, GStr("n"))>>)}
 Values == CASE Family = "scalars" -> Scalars
-            [] Family = "g1" -> G1 \cup NilPtrs \cup CaseKeys \cup NilColls
+            [] Family = "g1" -> G1 \cup NilPtrs \cup CaseKeys \cup NilColls \cup OddColls
             [] Family = "g2" -> G2
             [] Family = "bad" -> UNION {BadAt(b) : b \in Bads} \cup HiddenBad
 
